@@ -144,7 +144,7 @@ def run_api(text, S, exclude, filtered):
 
 
 def same_output(target, a, b):
-  if target in routes.BINARY_TARGETS:
+  if a[:2] == b"PK" and b[:2] == b"PK":   # xlsx containers embed timestamps: compare by cell content
     return readers.read_xlsx(a)["sheets"] == readers.read_xlsx(b)["sheets"]
   return a == b
 
